@@ -1,6 +1,7 @@
 import MidoProofs.SrcTie.Tok
 import MidoProofs.SrcTie.Parser
 import MidoProofs.SrcTie.ParserSession
+import MidoProofs.SrcTie.ParserResync
 #print axioms Mido.src_spec_table
 #print axioms Mido.src_feed_data
 #print axioms Mido.src_feed_status
@@ -14,3 +15,5 @@ import MidoProofs.SrcTie.ParserSession
 #print axioms Mido.src_parser_pending
 #print axioms Mido.srcStep_sim
 #print axioms Mido.src_parser_session
+#print axioms Mido.srcParse_eq
+#print axioms Mido.src_parser_total
